@@ -159,3 +159,28 @@ package selftest
 //@ func BadSharedWrite
 //@   requires !isnil(p) && !isnil(q)
 //@   ensures result == 5
+
+//@ func (*Holder).GoodRepublish
+//@   requires !isnil(h)
+//@   immutable published
+
+//@ func (*Holder).BadOverwrite
+//@   requires !isnil(h)
+//@   immutable published
+
+//@ func fillBox
+//@   trusted
+//@   modifies h.p
+//@   ensures !isnil(h.p) && fresh(h.p)
+
+//@ func BadAfterFreshStore
+//@   requires !isnil(h)
+//@   ensures result == 2
+
+//@ func GoodAfterFreshStore
+//@   requires !isnil(h) && !isnil(q)
+//@   ensures result == 7
+
+//@ func BadNamedAlias
+//@   requires !isnil(h)
+//@   ensures result == old(h.p)
